@@ -383,10 +383,10 @@ func (e *Engine) visitInstr(fr *frame, instr ssa.Instruction) (ret bool, jumped 
 			}
 			fr.env[instr] = uint64(x[idx])
 		case *ByteStr:
-			if idx < 0 || idx >= int64(len(x.B)) {
+			if idx < 0 || idx >= int64(x.Len()) {
 				e.rtPanic("index out of range")
 			}
-			b := x.B[idx]
+			b := x.bytes()[idx]
 			if t, ok := b.(*Term); ok && t.Sort.K == SInt {
 				b = e.simplify(e.ts.Int2BV(t, 8), nil)
 			}
@@ -462,12 +462,12 @@ func (e *Engine) sliceOp(fr *frame, instr *ssa.Slice) Value {
 		return x[lo:hi]
 	case *ByteStr:
 		if hi < 0 {
-			hi = int64(len(x.B))
+			hi = int64(x.Len())
 		}
-		if lo < 0 || lo > hi || hi > int64(len(x.B)) {
+		if lo < 0 || lo > hi || hi > int64(x.Len()) {
 			e.rtPanic("slice bounds out of range")
 		}
-		return normStr(&ByteStr{B: x.B[lo:hi:hi]})
+		return normStr(&ByteStr{B: x.bytes()[lo:hi:hi]})
 	case []Value:
 		if hi < 0 {
 			hi = int64(len(x))
@@ -794,10 +794,10 @@ func (e *Engine) lookup(instr *ssa.Lookup, x, idx Value) Value {
 		return uint64(x[i])
 	case *ByteStr:
 		i := e.concretizeIndex(idx)
-		if i < 0 || i >= int64(len(x.B)) {
+		if i < 0 || i >= int64(x.Len()) {
 			e.rtPanic("index out of range")
 		}
-		return x.B[i]
+		return x.bytes()[i]
 	}
 	panic(engineErr("lookup on %s", describeValue(x)))
 }
